@@ -11,28 +11,33 @@ from matched_markets.methodology.tbrmmdesignparameters import TBRMMDesignParamet
 
 ID = 'C08'
 LEVEL = 'model_checking'
-RULE = ('Engine B: explicit-state BFS to closure over a real TBRMMDiagnostics object. Alphabet: x := X_i (4 | 5 series '
-        'incl. a constant one that makes the regression fail), x := None, y := Y_j (2 | 3 series), and one read per '
+RULE = ('Engine B: explicit-state BFS to closure over a real TBRMMDiagnostics object. Alphabet: x := X_i (5 | 8 series '
+        'incl. a constant one that makes the regression fail and series of 8 / 16 points), x := None, y := Y_j (3 | 5 series of 8, 12 and 16 points; a control series of the wrong length must be rejected and leave the state unchanged), and one read per '
         'public derived quantity (corr, required_impact, pretestfit, bbtest, dwtest, aatest, corr_test, tests_ok, '
         'tbrfit, estimate_required_impact), for 2 | 3 parameter objects (one with a window so short that the A/A test is '
-        'undefined). State = byte-exact fingerprint of ALL instance attributes + model (id of current x, id of current y). '
+        'undefined). State = byte-exact fingerprint of ALL instance attributes + entry counts of the identity-keyed lru caches + model (id of current x, id of current y); successor states are obtained by REPLAYING the history on a fresh real object (no deep copies). '
         'Invariant in every state and for every read transition: the answer (value or exception type) equals the answer '
         'of a freshly built object holding the model series. Vacuity guard: each verdict takes both values over the '
         '(x,y) pairs (reported as verdict_values).')
-ASSUMPTIONS = ['series alphabet fixed (12 points, integer valued); reads compare floats bit-exactly (same code, same inputs)',
-               'deepcopy of the diagnostics object is faithful (checked: fingerprint of the copy equals the original)']
+ASSUMPTIONS = ['series alphabet fixed (8, 12 and 16 points, integer valued); reads compare floats bit-exactly (same code, same inputs)',
+               'no object is ever copied: every state is rebuilt by replaying its history on a fresh real object (stateless replay), '
+               'because functools.lru_cache on the diagnostics methods is keyed by object identity and a deep copy would get a cold cache']
 
 n = 12
 t = np.arange(n, dtype=float)
 Y = {1: 3 * t + np.array([0, 1, 0, 2, 1, 0, 1, 2, 0, 1, 0, 2.]),
      2: np.array([5, 9, 4, 8, 3, 9, 5, 7, 2, 8, 4, 9.]) * 3,
-     3: 40 - 2 * t + np.array([1, 0, 0, 3, 1, 2, 0, 1, 3, 0, 2, 1.])}
+     3: 40 - 2 * t + np.array([1, 0, 0, 3, 1, 2, 0, 1, 3, 0, 2, 1.]),
+     4: 5 * np.arange(16.) + np.array([0, 2, 1, 0, 3, 1, 0, 2, 2, 0, 1, 3, 0, 1, 2, 0.]),   # 16 points
+     5: np.array([9, 4, 7, 12, 10, 15, 13, 19.])}                                            # 8 points
 X = {1: 2 * t + np.array([1, 0, 2, 0, 1, 1, 0, 2, 1, 0, 2, 0.]),
      2: np.array([3, 1, 4, 1, 5, 9, 2, 6, 5, 3, 5, 8.]),
      3: np.concatenate([t[:6], t[6:] + 30]),
      4: np.full(n, 7.0),
      5: 3 * t + np.array([0, 1, 0, 2, 1, 0, 1, 2, 0, 1, 0, 9.]),
-     6: 2 * t + np.array([0, 3, 0, 3, 1, 0, 0, 0, 2, 1, 0, 0.])}   # with Y1: all four tests pass
+     6: 2 * t + np.array([0, 3, 0, 3, 1, 0, 0, 0, 2, 1, 0, 0.]),   # with Y1: all four tests pass
+     7: 2 * np.arange(16.) + np.array([1, 0, 2, 1, 0, 0, 3, 1, 0, 2, 1, 1, 0, 2, 0, 1.]),   # 16 points (for Y4)
+     8: np.array([4, 2, 3, 6, 5, 8, 6, 9.])}                                                 # 8 points (for Y5)
 PARS = {'default': dict(n_test=3, iroas=1.0), 'aa-undefined': dict(n_test=10, iroas=1.0),
         'strict': dict(n_test=2, iroas=2.0, min_corr=0.95, sig_level=0.95)}
 READS = ['corr', 'required_impact', 'pretestfit', 'bbtest', 'dwtest', 'aatest', 'corr_test', 'tests_ok',
@@ -50,18 +55,26 @@ def read(d, q):
         return ('EXC', type(e).__name__)
 
 
+def lru_methods():
+    """functools.lru_cache-wrapped methods of the class: process-wide caches keyed by `self` = hidden per-object state."""
+    return [f for f in vars(TBRMMDiagnostics).values() if hasattr(f, 'cache_info') and hasattr(f, 'cache_clear')]
+
+
 def canon(d):
-    return tuple((k, fp(v)) for k, v in sorted(vars(d).items()) if k != '_par')
+    # instance attributes + the number of entries each identity-keyed cache holds for this history (the caches are
+    # cleared before every replay, so the count is a function of the history alone)
+    hidden = tuple(f.cache_info().currsize for f in lru_methods())
+    return (tuple((k, fp(v)) for k, v in sorted(vars(d).items()) if k != '_par'), hidden)
 
 
 def alphabet(tier):
-    xs = [1, 2, 4, 6] if tier == 'quick' else [1, 2, 3, 4, 5, 6]
-    ys = [1, 2] if tier == 'quick' else [1, 2, 3]
+    xs = [1, 2, 4, 6, 7] if tier == 'quick' else [1, 2, 3, 4, 5, 6, 7, 8]
+    ys = [1, 2, 4] if tier == 'quick' else [1, 2, 3, 4, 5]
     ops = [('setx', i) for i in xs] + [('clearx',)] + [('sety', j) for j in ys] + [('read', q) for q in READS]
     return xs, ys, ops
 
 
-def explore_par(pname, tier):
+def explore_par(pname, tier, jobs=8):
     par = TBRMMDesignParameters(**PARS[pname])
     xs, ys, ops = alphabet(tier)
     fresh_cache = {}
@@ -82,8 +95,18 @@ def explore_par(pname, tier):
         viol = []
         obs = None
         if op[0] == 'setx':
-            d.x = X[op[1]]
-            model = (op[1], model[1])
+            fits = len(X[op[1]]) == len(Y[model[1]])
+            try:
+                d.x = X[op[1]]
+                raised = False
+            except ValueError:
+                raised = True
+            obs = 'ValueError' if raised else 'set'
+            if raised == fits:
+                viol.append(('C08:x-length-check', 'parameters %s: x := X%d (%d points) with y = Y%d (%d points) %s' % (
+                    pname, op[1], len(X[op[1]]), model[1], len(Y[model[1]]), 'was rejected' if raised else 'was accepted')))
+            if not raised:
+                model = (op[1], model[1])
         elif op[0] == 'clearx':
             d.x = None
             model = (None, model[1])
@@ -98,19 +121,19 @@ def explore_par(pname, tier):
                              'gives %r' % (pname, op[1], obs, model[0], model[1], exp)))
         return model, viol, obs
 
-    def check_state(d, model, hist):
-        out = []
-        for q in READS:   # every read, performed on a copy, equals the fresh answer
-            got = read(copy.deepcopy(d), q)
-            exp = fresh(model, q)
-            if got != exp:
-                out.append(('C08:stale:' + q, 'parameters %s: in the state reached, %s reads %r but a fresh object with '
-                            'x=%s y=%s gives %r' % (pname, q, got, model[0], model[1], exp)))
-        return out
+    def factory():
+        for f in lru_methods():
+            f.cache_clear()
+        return TBRMMDiagnostics(Y[1], par), (None, 1)
 
-    init = TBRMMDiagnostics(Y[1], par)
-    assert canon(copy.deepcopy(init)) == canon(init)
-    r = bfs.explore(init, (None, 1), ops, step, canon, check_state=check_state, max_states=100000)
+    # every state is reached by replaying its history on a fresh live object; every read from every state is a
+    # transition checked against a fresh object, so no separate per-state check is needed
+    r = bfs.explore_replay_parallel(ops, step, canon, factory, jobs=jobs, max_states=300000)
+    for xi in [None] + xs:          # vacuity guard, evaluated here (the workers' caches are not visible to the parent)
+        for yj in ys:
+            if xi is None or len(X[xi]) == len(Y[yj]):
+                for q in verdict_values:
+                    fresh((xi, yj), q)
     r['verdict_values'] = {q: len(v) for q, v in verdict_values.items()}
     r['pname'] = pname
     return r
@@ -119,10 +142,7 @@ def explore_par(pname, tier):
 def run(tier, seed, jobs):
     res = engine.Result()
     pnames = ['default', 'aa-undefined'] if tier == 'quick' else ['default', 'aa-undefined', 'strict']
-    import multiprocessing
-    ctx = multiprocessing.get_context('fork')
-    with ctx.Pool(min(len(pnames), jobs)) as pool:
-        parts = pool.starmap(explore_par, [(p, tier) for p in pnames])
+    parts = [explore_par(p, tier, jobs) for p in pnames]
     states = sum(r['states'] for r in parts)
     trans = sum(r['transitions'] for r in parts)
     for r in parts:
@@ -150,8 +170,11 @@ def replay(case):
     for i, op in enumerate(hist):
         last = i == len(hist) - 1
         if op[0] == 'setx':
-            d.x = X[op[1]]
-            model = (op[1], model[1])
+            try:
+                d.x = X[op[1]]
+                model = (op[1], model[1])
+            except ValueError:
+                pass
         elif op[0] == 'clearx':
             d.x = None
             model = (None, model[1])
